@@ -25,8 +25,8 @@ Definition sp_spec (c : cfg) (e : env) (p : pkt) (n n' : sndst) (Y : list wrec) 
     ((map w_pkt Y = [KEXINIT_pkt c] /\ deferred n' = deferred n ++ [p] /\ defer_cond e false (p_ty p) = true) \/
      (map w_pkt Y = [KEXINIT_pkt c; p] /\ deferred n' = deferred n /\ defer_cond e false (p_ty p) = false /\
       (MSG_KEX_LAST <? p_ty p) = false) \/
-     (map w_pkt Y = [KEXINIT_pkt c; IGN_pkt; p] /\ deferred n' = deferred n /\ future n <> [] /\
-      defer_cond e true (p_ty p) = false)))).
+     (map w_pkt Y = [KEXINIT_pkt c; IGN_pkt; p] /\ deferred n' = deferred n /\
+      (legacy c = true /\ future n <> []) /\ defer_cond e true (p_ty p) = false)))).
 
 Lemma kexdef_big t : (MSG_KEX_LAST <? t) = true -> kex_deferrable t = true.
 Proof. intros H. unfold kex_deferrable. rewrite H. repeat rewrite orb_true_r. reflexivity. Qed.
@@ -67,7 +67,7 @@ Proof.
     repeat split; auto. intros Hf. destruct (F Hf) as [-> _]. cbn. exact Hf.
 Qed.
 
-Lemma send_pre_spec c e n : pre_quiet n (send_pre c e n) \/ pre_fired c e n (send_pre c e n).
+Lemma send_pre_spec c e ty n : pre_quiet n (send_pre c e ty n) \/ pre_fired c e n (send_pre c e ty n).
 Proof.
   unfold send_pre, trigger.
   assert (Q0 : pre_quiet n n) by (repeat split; auto).
@@ -82,6 +82,7 @@ Proof.
     split; [exact Hk|]. split; [exact Ha|]. split; [exists w; rewrite W1, C; auto|].
     split; [exact K2|]. split; [reflexivity|]. split; [congruence|]. intros Hf; apply K5; auto. }
   destruct (e_auth_complete e && kex_complete n) eqn:Hac; [|left; exact Q0].
+  destruct (legacy c || negb (ty =? MSG_IGNORE)); [|left; exact Q0]. cbn [andb].
   destruct (rekey_bytes c <=? rekey_sent n).
   - right. apply FIRE; auto.
   - destruct (rekey_seconds c =? 0); [left; exact Q0|].
@@ -93,8 +94,15 @@ Proof.
 Qed.
 
 (* with a steady clock, re-evaluating the trigger on an unchanged state gives the same answer *)
-Lemma send_pre_idem c e n : future n = [] -> pre_quiet n (send_pre c e n) -> send_pre c e n = n.
+Lemma send_pre_idem c e ty n : future n = [] -> pre_quiet n (send_pre c e ty n) -> send_pre c e ty n = n.
 Proof. intros Hf (_ & _ & _ & _ & H). auto. Qed.
+
+Lemma send_pre_legacy_ty c e t1 t2 n : legacy c = true -> send_pre c e t1 n = send_pre c e t2 n.
+Proof. intros L. unfold send_pre, trigger. rewrite L. reflexivity. Qed.
+
+(* since 97cb05d the trigger is not evaluated for MSG_IGNORE *)
+Lemma send_pre_ignore c e n : legacy c = false -> send_pre c e MSG_IGNORE n = n.
+Proof. intros L. unfold send_pre, trigger. rewrite L. cbn. rewrite andb_false_r. reflexivity. Qed.
 
 Ltac prj := cbn [wire kex_complete kexinit_sent deferred future send_seq rekey_sent rekey_time now
                  set_deferred set_kexinit_sent set_kex_complete set_rekey_sent set_rekey_time set_now set_future
@@ -106,7 +114,7 @@ Proof. split; reflexivity. Qed.
 Lemma send_packet_spec c e p n : exists Y, sp_spec c e p n (send_packet c e p n) Y.
 Proof.
   unfold send_packet.
-  destruct (send_pre_spec c e n) as [Q|F]; set (n1 := send_pre c e n) in *.
+  destruct (send_pre_spec c e (p_ty p) n) as [Q|F]; set (n1 := send_pre c e (p_ty p) n) in *.
   - destruct Q as (A & B & C & D & E). rewrite A.
     destruct (defer_cond e (kex_complete n) (p_ty p)) eqn:Hd.
     + exists []. unfold sp_spec. prj.
@@ -115,7 +123,7 @@ Proof.
       left. split; [exact A|]. split; [exact B|]. left. rewrite D. auto.
     + destruct (encrypting e && (MSG_KEX_LAST <? p_ty p)) eqn:Hi.
       * apply andb_true_iff in Hi as [_ Hbig].
-        unfold send_ignore. destruct (send_pre_spec c e n1) as [Q2|F2]; set (n2 := send_pre c e n1) in *.
+        unfold send_ignore. destruct (send_pre_spec c e MSG_IGNORE n1) as [Q2|F2]; set (n2 := send_pre c e MSG_IGNORE n1) in *.
         -- destruct Q2 as (A2 & B2 & C2 & D2 & E2).
            eexists [_; _]. unfold sp_spec, emit. prj. rewrite C2, C.
            split; [rewrite <- app_assoc; reflexivity|].
@@ -128,15 +136,21 @@ Proof.
                        (1 + p_len IGN_pkt + pad_len (e_hdr e) (e_bs e) (p_len IGN_pkt));
                    mkW p ((if (p_ty IGN_pkt =? MSG_NEWKEYS) && e_strict e then 0 else (send_seq n2 + 1) mod SEQ_MOD))
                        (e_epoch e) (e_keys e) (1 + p_len p + pad_len (e_hdr e) (e_bs e) (p_len p))].
-           assert (NS : future n <> []).
-           { (* steady clock: the first evaluation did not fire, so neither does the second *)
-             intros Hf. pose proof (E Hf) as I.
-             assert (I2 : n2 = n) by (unfold n2; rewrite I; exact I).
-             rewrite I2 in K2. congruence. }
+           assert (NS : legacy c = true /\ future n <> []).
+           { split.
+             - (* the fixed code never fires for the IGNORE *)
+               destruct (legacy c) eqn:L; [reflexivity|]. unfold n2 in K2. rewrite (send_pre_ignore c e n1 L) in K2. congruence.
+             - (* steady clock: the first evaluation did not fire, so neither does the second *)
+               intros Hf. pose proof (E Hf) as I.
+               destruct (legacy c) eqn:L; [|unfold n2 in K2; rewrite (send_pre_ignore c e n1 L) in K2; congruence].
+               (* legacy code: the trigger ignores the type; same state, same clock, same answer *)
+               assert (I2 : n2 = n).
+               { unfold n2. rewrite (send_pre_legacy_ty c e MSG_IGNORE (p_ty p) n1 L). rewrite I. exact I. }
+               rewrite I2 in K2. congruence. }
            unfold sp_spec, emit. prj. rewrite W1, C.
            split; [repeat rewrite <- app_assoc; reflexivity|].
            split; [constructor; [exact W3|repeat constructor]|].
-           split; [intros Hf; contradiction|].
+           split; [intros Hf; destruct NS as [_ NS]; contradiction|].
            right. rewrite <- A. split; [exact K|]. split; [exact Ha|]. split; [exact K2|]. split; [exact K3|].
            right. right. rewrite W2. split; [reflexivity|]. split; [congruence|].
            split; [exact NS|rewrite <- K, A; exact Hd].
@@ -226,14 +240,12 @@ Proof.
 Qed.
 
 Lemma quiet_send c e p n stf ka :
-  not_kn (p_ty p) = true -> future n = [] ->
+  legacy c = false -> not_kn (p_ty p) = true ->
   mode_ok stf (kex_complete n) (kexinit_sent n) ka = true ->
   quiet_scan (types n) = Some (stf && negb (kex_complete n)) ->
-  quiet_scan (types (send_packet c e p n)) = Some (stf && negb (kex_complete (send_packet c e p n))) /\
-  future (send_packet c e p n) = [].
+  quiet_scan (types (send_packet c e p n)) = Some (stf && negb (kex_complete (send_packet c e p n))).
 Proof.
-  intros Hp Hf M A0. destruct (send_packet_spec c e p n) as (Y & W & _ & F & H).
-  split; [|exact (F Hf)].
+  intros L Hp M A0. destruct (send_packet_spec c e p n) as (Y & W & _ & _ & H).
   rewrite (types_ext _ _ _ W). unfold quiet_scan in *. rewrite fold_left_app, A0.
   destruct H as [(A & B & [(X & _)|([X|(X & Hbig)] & _ & Hd)])|(K & _ & K2 & K3 & H)].
   - rewrite X, A. reflexivity.
@@ -244,12 +256,12 @@ Proof.
     destruct (kex_complete n); [rewrite andb_false_r; reflexivity|].
     rewrite (defer_false_quiet _ _ Hd). rewrite andb_false_r. reflexivity.
   - rewrite K in *. apply mode_kcT in M as (-> & _ & _). rewrite K2.
-    destruct H as [(X & _)|[(X & _ & Hd & _)|(X & _ & NS & _)]].
+    destruct H as [(X & _)|[(X & _ & Hd & _)|(X & _ & (L' & _) & _)]].
     + rewrite X. reflexivity.
     + rewrite X. cbn [map fold_left p_ty KEXINIT_pkt].
       change (quiet_step (Some (true && negb true)) MSG_KEXINIT) with (Some true).
       rewrite (quiet_other _ _ Hp); [reflexivity|]. rewrite (defer_false_quiet _ _ Hd). reflexivity.
-    + contradiction.
+    + congruence.
 Qed.
 
 (* order of session packets *)
@@ -565,7 +577,7 @@ Qed.
 Lemma send_packet_plain c e p n : kex_complete n = false -> defer_cond e false (p_ty p) = false ->
   (MSG_KEX_LAST <? p_ty p) = false -> send_packet c e p n = emit e p n.
 Proof.
-  intros Hk Hd Hb. unfold send_packet, send_pre, trigger. rewrite Hk, andb_false_r. cbn [kex_complete].
+  intros Hk Hd Hb. unfold send_packet, send_pre, trigger. rewrite Hk, andb_false_r. cbn [andb kex_complete].
   rewrite Hk, Hd, Hb, andb_false_r. reflexivity.
 Qed.
 
@@ -820,72 +832,67 @@ Section Frames.
   Qed.
 End Frames.
 
-(* ---- quiet window, for a clock that stands still inside every synchronous call -------------------- *)
+(* ---- quiet window (the code since 97cb05d: legacy = false), for every clock ---------------------- *)
 Definition SQ (e : env) (stf ka : bool) (n : sndst) : Prop :=
-  SI e stf ka n /\ future n = [] /\ quiet_scan (types n) = Some (stf && negb (kex_complete n)).
+  SI e stf ka n /\ quiet_scan (types n) = Some (stf && negb (kex_complete n)).
 
-Lemma SQ_send c e stf ka p n : not_kn (p_ty p) = true -> SQ e stf ka n -> SQ e stf ka (send_packet c e p n).
+Lemma SQ_send c e stf ka p n : legacy c = false -> not_kn (p_ty p) = true -> SQ e stf ka n -> SQ e stf ka (send_packet c e p n).
 Proof.
-  intros Hp (S & F & Q). split; [apply SI_send; auto|].
-  destruct (quiet_send c e p n stf ka Hp F (si_mode _ _ _ _ S) Q) as [Q' F']. auto.
+  intros L Hp (S & Q). split; [apply SI_send; auto|].
+  exact (quiet_send c e p n stf ka L Hp (si_mode _ _ _ _ S) Q).
 Qed.
 
-Lemma SQ_flush c e stf ka n : SQ e stf ka n -> SQ e stf ka (flush c e n).
+Lemma SQ_flush c e stf ka n : legacy c = false -> SQ e stf ka n -> SQ e stf ka (flush c e n).
 Proof.
-  intros H. unfold flush.
+  intros L H. unfold flush.
   apply (fold_send_inv_q c e (fun q => not_kn (p_ty q) = true) (SQ e stf ka)).
   - intros p m Hp Hm. apply SQ_send; auto.
   - exact (si_dq _ _ _ _ (proj1 H)).
-  - destruct H as ([M A E D] & F & Q). split; [constructor; auto; constructor|]. split; auto.
+  - destruct H as ([M A E D] & Q). split; [constructor; auto; constructor|]. auto.
 Qed.
 
-Lemma quiet_kexinit c e n b : quiet_scan (types n) = Some b -> future n = [] ->
-  quiet_scan (types (send_kexinit c e n)) = Some true /\ future (send_kexinit c e n) = [].
+Lemma quiet_kexinit c e n b : quiet_scan (types n) = Some b -> quiet_scan (types (send_kexinit c e n)) = Some true.
 Proof.
-  intros Q F. destruct (send_kexinit_fired c e n) as ((w & W1 & W2 & W3) & _ & _ & _ & K5).
-  split; [|exact (K5 F)]. rewrite (types_snoc _ _ _ W1), W2. unfold quiet_scan in *.
-  rewrite fold_left_snoc, Q. reflexivity.
+  intros Q. destruct (send_kexinit_fired c e n) as ((w & W1 & W2 & W3) & _).
+  rewrite (types_snoc _ _ _ W1), W2. unfold quiet_scan in *. rewrite fold_left_snoc, Q. reflexivity.
 Qed.
 
 Section Quiet.
   Variable Hf : bytes -> bytes.
   Variable c : cfg.
+  Hypothesis L : legacy c = false.
 
   Definition QInv (s : st) : Prop :=
-    future (sn s) = [] /\ quiet_scan (types (sn s)) = Some (started s && negb (kex_complete (sn s))).
+    quiet_scan (types (sn s)) = Some (started s && negb (kex_complete (sn s))).
 
   Lemma SQ_of s : Inv s -> QInv s -> SQ (env_of s) (started s) (kex_active s) (sn s).
-  Proof. intros I [F Q]. split; [exact (inv_si _ I)|]. auto. Qed.
+  Proof. intros I Q. split; [exact (inv_si _ I)|exact Q]. Qed.
 
   Lemma Q_flush s e : SQ e (started s) (kex_active s) (sn s) -> e = env_of s -> QInv (do_flush c s).
-  Proof.
-    intros S ->. destruct (SQ_flush c _ _ _ _ S) as (_ & F & Q). split; stcbn; auto.
-  Qed.
+  Proof. intros S ->. exact (proj2 (SQ_flush c _ _ _ _ L S)). Qed.
 
   Lemma Q_recv_version s : Inv s -> QInv s -> QInv (recv_version c s).
   Proof.
-    unfold recv_version. intros I QI. destruct (started s) eqn:St; [exact QI|]. destruct QI as [F Q]. rewrite St in Q.
-    destruct (quiet_kexinit c (env_of s) (sn s) _ Q F) as [Q' F'].
+    unfold recv_version. intros I QI. destruct (started s) eqn:St; [exact QI|]. unfold QInv in *. rewrite St in QI.
+    pose proof (quiet_kexinit c (env_of s) (sn s) _ QI) as Q'.
     destruct (ord_kexinit c (env_of s) (sn s)) as [_ KK].
-    split; stcbn; prj; auto.
-    change (types (set_kexinit_sent true ?n)) with (types n). rewrite KK. exact Q'.
+    stcbn; prj. change (types (set_kexinit_sent true ?n)) with (types n). rewrite KK. exact Q'.
   Qed.
 
   Lemma Q_process_kexinit s ext sp : Inv s -> QInv s -> QInv (process_kexinit c ext sp s).
   Proof.
     unfold process_kexinit. intros I QI.
     destruct (started s) eqn:St; [|exact QI]. cbn [negb].
-    destruct (kex_active s) eqn:Ka; [exact QI|]. destruct QI as [F Q]. rewrite St in Q.
+    destruct (kex_active s) eqn:Ka; [exact QI|]. unfold QInv in *. rewrite St in QI.
     set (s1 := if is_nil (sid s) then set_markers (can_ext s || ext) (strict s || sp) s else s).
     assert (E1 : sn s1 = sn s /\ started s1 = true) by (unfold s1; destruct (is_nil (sid s)); auto).
     destruct E1 as [E1 E2]. rewrite E1.
     pose proof (si_mode _ _ _ _ (inv_si _ I)) as M. rewrite St, Ka in M.
     destruct (kexinit_sent (sn s)) eqn:Ks.
-    - assert (Hk : kex_complete (sn s) = false) by (destruct (kex_complete (sn s)); cbn in M; congruence).
-      split; stcbn; prj; auto. change (types (set_kexinit_sent false ?n)) with (types n). rewrite E2. exact Q.
-    - destruct (quiet_kexinit c (env_of s1) (sn s) _ Q F) as [Q' F'].
+    - stcbn; prj. change (types (set_kexinit_sent false ?n)) with (types n). rewrite E2. exact QI.
+    - pose proof (quiet_kexinit c (env_of s1) (sn s) _ QI) as Q'.
       destruct (ord_kexinit c (env_of s1) (sn s)) as [_ KK].
-      split; stcbn; auto. rewrite E2, KK. exact Q'.
+      stcbn. rewrite E2, KK. exact Q'.
   Qed.
 
   Lemma quiet_emit e p n b : quiet_scan (types n) = Some b ->
@@ -897,22 +904,16 @@ Section Quiet.
     QInv (do_flush c (if first then do_send c SVCREQ_pkt s4 else s4)).
   Proof.
     intros S4 T1 T2. destruct first.
-    - apply (Q_flush _ (env_of s4)); [|reflexivity]. stcbn. rewrite T1, T2. apply SQ_send; [reflexivity|exact S4].
+    - apply (Q_flush _ (env_of s4)); [|reflexivity]. stcbn. rewrite T1, T2. apply SQ_send; [exact L|reflexivity|exact S4].
     - apply (Q_flush _ (env_of s4)); [|reflexivity]. rewrite T1, T2. exact S4.
   Qed.
-End Quiet.
-
-Section Quiet2.
-  Variable Hf : bytes -> bytes.
-  Variable c : cfg.
 
   Lemma Q_send_newkeys s k h a : Inv s -> QInv s -> QInv (send_newkeys Hf c k h a s).
   Proof.
     unfold send_newkeys. intros I QI. destruct (kex_active s) eqn:Ka; [|exact QI]. cbn [negb].
-    pose proof (Inv_send_newkeys Hf c s k h a I) as I'. unfold send_newkeys in I'. rewrite Ka in I'. cbn [negb] in I'.
     destruct I as [S O J H R]. rewrite Ka in S.
     pose proof (si_mode _ _ _ _ S) as M. apply mode_kaT in M as (St & Hk & Hs).
-    destruct QI as [F Q]. rewrite St, Hk in Q.
+    unfold QInv in QI. rewrite St, Hk in QI.
     destruct S as [_ A E D]. rewrite St, Hk in A.
     cbv zeta in *.
     rewrite (do_send_plain c _ NEWKEYS_pkt) in * by (first [exact Hk | reflexivity]).
@@ -926,59 +927,54 @@ Section Quiet2.
     assert (E1 : epoch_scan (wire (emit (env_of s) NEWKEYS_pkt (sn s))) = Some (send_epoch s + 1)).
     { rewrite (epoch_emit _ _ _ _ E eq_refl). reflexivity. }
     assert (Q1 : quiet_scan (types (emit (env_of s) NEWKEYS_pkt (sn s))) = Some false).
-    { rewrite (quiet_emit _ _ _ _ Q). reflexivity. }
+    { rewrite (quiet_emit _ _ _ _ QI). reflexivity. }
     stcbn.
     destruct (can_ext s); apply Q_tail; stcbn; auto.
-    - split; [constructor; prj|split; prj].
+    - split; [constructor; prj|prj].
       + rewrite !ks_emit, Hs. reflexivity.
       + change (types (set_kex_complete true ?n)) with (types n). rewrite types_emit.
         unfold alt_scan in *. rewrite fold_left_snoc, A1. reflexivity.
       + rewrite (epoch_emit _ _ _ _ E1); reflexivity.
       + exact D.
-      + exact F.
       + change (types (set_kex_complete true ?n)) with (types n). rewrite (quiet_emit _ _ _ _ Q1). reflexivity.
-    - split; [constructor; prj|split; prj].
+    - split; [constructor; prj|prj].
       + rewrite !ks_emit, Hs. reflexivity.
       + change (types (set_kex_complete true ?n)) with (types n). rewrite A1. reflexivity.
       + exact E1.
       + exact D.
-      + exact F.
       + change (types (set_kex_complete true ?n)) with (types n). rewrite Q1. reflexivity.
   Qed.
 
-  Lemma Q_run_act a s : ext_ok (a, []) = true -> Inv s -> QInv s -> QInv (run_act Hf c a s).
+  Lemma Q_run_act a ts s : ext_ok (a, ts) = true -> Inv s -> QInv s -> QInv (run_act Hf c a s).
   Proof.
     intros X I QI. destruct a; cbn [run_act].
     - exact QI.
     - apply Q_recv_version; auto.
-    - pose proof (SQ_of s I QI) as S. destruct (SQ_send c _ _ _ p _ X S) as (_ & F & Q). split; stcbn; auto.
+    - pose proof (SQ_of s I QI) as S. exact (proj2 (SQ_send c _ _ _ p _ L X S)).
     - apply Q_process_kexinit; auto.
     - apply Q_send_newkeys; auto.
     - unfold process_newkeys. destruct (staged s); exact QI.
     - unfold auth_begin. destruct (is_client c); [exact QI|].
-      apply (Q_flush c _ (env_of (set_auth true (auth_complete s) s))); [|reflexivity].
-      destruct (SQ_of s I QI) as (S & F & Q). split; [eapply SI_env; [|exact S]; reflexivity|auto].
-    - unfold auth_done. apply (Q_flush c _ (env_of (set_auth false true s))); [|reflexivity].
-      destruct (SQ_of s I QI) as (S & F & Q). split; [eapply SI_env; [|exact S]; reflexivity|auto].
+      apply (Q_flush _ (env_of (set_auth true (auth_complete s) s))); [|reflexivity].
+      destruct (SQ_of s I QI) as (S & Q). split; [eapply SI_env; [|exact S]; reflexivity|auto].
+    - unfold auth_done. apply (Q_flush _ (env_of (set_auth false true s))); [|reflexivity].
+      destruct (SQ_of s I QI) as (S & Q). split; [eapply SI_env; [|exact S]; reflexivity|auto].
   Qed.
 
-  Lemma Q_step s o : ext_ok o = true -> steady o = true -> Inv s -> QInv s -> QInv (step Hf c s o).
+  Lemma Q_step s o : ext_ok o = true -> Inv s -> QInv s -> QInv (step Hf c s o).
   Proof.
-    intros X Y I QI. unfold step. destruct (err s); [exact QI|]. destruct o as [a ts].
-    destruct ts; [|discriminate]. cbn [fst snd].
-    assert (QInv (set_sn (set_future [] (sn s)) s)) as Q0 by (destruct QI as [F Q]; split; stcbn; prj; auto).
-    pose proof (Q_run_act a _ X (Inv_clock _ [] I) Q0) as [F Q]. split; stcbn; prj; auto.
+    intros X I QI. unfold step. destruct (err s); [exact QI|]. destruct o as [a ts]. cbn [fst snd].
+    exact (Q_run_act a ts _ X (Inv_clock _ ts I) QI).
   Qed.
 
-  Lemma Q_run ops : forall s, forallb ext_ok ops = true -> forallb steady ops = true -> Inv s -> QInv s ->
-    QInv (run Hf c ops s).
+  Lemma Q_run ops : forall s, forallb ext_ok ops = true -> Inv s -> QInv s -> QInv (run Hf c ops s).
   Proof.
-    induction ops as [|o ops IH]; intros s X Y I QI; [exact QI|].
-    cbn in X, Y. apply andb_true_iff in X as [X1 X2]. apply andb_true_iff in Y as [Y1 Y2].
+    induction ops as [|o ops IH]; intros s X I QI; [exact QI|].
+    cbn in X. apply andb_true_iff in X as [X1 X2].
     change (run Hf c (o :: ops) s) with (run Hf c ops (step Hf c s o)).
     apply IH; auto. - apply Inv_step; auto. - apply Q_step; auto.
   Qed.
-End Quiet2.
+End Quiet.
 
 (* ---- keys: what is on the wire in epoch n was protected with the keys derived in exchange n ---- *)
 Definition KW (f : Z -> option keys) (m : Z) (n : sndst) : Prop :=
@@ -1209,12 +1205,12 @@ Section Final.
 
   Definition reach (ops : list op) : st := run Hf c ops init.
 
-  Lemma quiet_steady ops : forallb ext_ok ops = true -> forallb steady ops = true ->
+  Lemma quiet_always ops : legacy c = false -> forallb ext_ok ops = true ->
     quiet_scan (wire_types (reach ops)) =
       Some (started (reach ops) && negb (kex_complete (sn (reach ops)))).
   Proof.
-    intros X Y. assert (Q0 : QInv init) by (split; reflexivity).
-    exact (proj2 (Q_run Hf c ops init X Y Inv_init Q0)).
+    intros L X. assert (Q0 : QInv init) by reflexivity.
+    exact (Q_run Hf c L ops init X Inv_init Q0).
   Qed.
 
   Lemma alt_always ops : forallb ext_ok ops = true ->
@@ -1317,7 +1313,7 @@ End Final.
 
 (* the clock race: the trigger is evaluated once for the packet and once more for the IGNORE in front
    of it; if the rekey time falls between the two readings the data packet follows the KEXINIT *)
-Definition race_cfg : cfg := mkC true 1000000 50 100 30.
+Definition race_cfg : cfg := mkC true 1000000 50 100 30 true.     (* legacy = true: the code before 97cb05d *)
 Definition race_algs : algs := mkA 5 16 5 16 0 0 0 0 0 0.
 Definition race_ops : list op :=
   [(RecvVersion, []); (RecvKexInit true true, []); (KexDone [1] [2] race_algs, []); (RecvNewKeys, []);
